@@ -108,6 +108,28 @@ func runC16(r *Report) {
 		}
 		return false
 	}
+	// flagKnownIP: known in the block, or — inside a private helper of unchoke (choke(peer)) — at every call of it
+	var flagKnownIP func(in ssa.Instruction, want bool, depth int) bool
+	flagKnownIP = func(in ssa.Instruction, want bool, depth int) bool {
+		if flagKnown(in.Block(), want) {
+			return true
+		}
+		f := in.Parent()
+		if depth > 2 || f == unchoke || !p.inUnitOf(f, unchoke) {
+			return false
+		}
+		calls, escapes := p.callSitesOf(f)
+		if len(escapes) > 0 || len(calls) == 0 {
+			return false
+		}
+		for _, cs := range calls {
+			ci, ok := cs.(ssa.Instruction)
+			if !ok || !flagKnownIP(ci, want, depth+1) {
+				return false
+			}
+		}
+		return true
+	}
 	nStores := 0
 	for _, acc := range p.fieldAccesses(am) {
 		fa, ok := acc.Instr.(*ssa.FieldAddr)
@@ -130,7 +152,7 @@ func runC16(r *Report) {
 			r.Fn(acc.Fn)
 			v, _ := constInt(c.Call.Args[1])
 			key := fmt.Sprintf("%s/amUnchoking=%d", fname(acc.Fn), v)
-			if acc.Fn != unchoke {
+			if acc.Fn != unchoke && !(relPkg(acc.Fn) == "peer" && p.inUnitOf(acc.Fn, unchoke)) {
 				r.Fail("R1", key, c.Pos(), "Peer.amUnchoking is stored in %s, outside unchoke: the flag can change without the counter", fname(acc.Fn))
 				continue
 			}
@@ -173,7 +195,7 @@ func runC16(r *Report) {
 				continue
 			}
 			// the flag provably had the opposite value
-			if !flagKnown(c.Block(), v == 0) {
+			if !flagKnownIP(c, v == 0, 0) {
 				r.Fail("R1", key, c.Pos(), "the flag is set to %d (and the counter changed by %+d) in a branch where it is not known to be %s: a redundant or stale (un)choke decision moves the counter for a peer that never counted — e.g. the `nothing to do` test is made on a value that is changed afterwards", v, want, map[bool]string{true: "non-zero", false: "zero"}[v == 0])
 				continue
 			}
@@ -183,7 +205,7 @@ func runC16(r *Report) {
 	r.Sentinel("R1", nStores, 2)
 	// other modifications of the counter
 	for _, f := range p.SrcFuncs() {
-		if relPkg(f) != "peer" || f == unchoke {
+		if relPkg(f) != "peer" || f == unchoke || p.inUnitOf(f, unchoke) {
 			continue
 		}
 		allInstrs(f, func(in ssa.Instruction) {
@@ -197,22 +219,22 @@ func runC16(r *Report) {
 			isRunDefer := false
 			var theDefer *ssa.Defer
 			allInstrs(run, func(i2 ssa.Instruction) {
-				if dd, ok := i2.(*ssa.Defer); ok && deferredFunc(dd) == f {
-					isRunDefer = true
-					theDefer = dd
+				if dd, ok := i2.(*ssa.Defer); ok {
+					// the deferred function itself, or a private helper it calls (releaseUnchoking(peer))
+					if df := deferredFunc(dd); df != nil && (df == f || p.inUnitOf(f, df)) {
+						isRunDefer = true
+						theDefer = dd
+					}
 				}
 			})
 			if !isRunDefer || d != -1 {
 				r.Fail("R1", key, cc.Pos(), "numUnchoking is modified in %s (by %+d): only unchoke and peer.Run's exit defer may change it", fname(f), d)
 				return
 			}
-			under := false
-			for _, g := range guardsOf(cc.Block()) {
-				g = g.norm()
-				if m, pol := isAmLoadNonZero(g.Cond); m && pol == g.Pol {
-					under = true
-				}
-			}
+			under := p.guardedIP(cc, func(g Guard) bool {
+				m, pol := isAmLoadNonZero(g.Cond)
+				return m && pol == g.Pol
+			}, 0)
 			dom, _ := deferDominatesReturns(theDefer)
 			r.Check(under && dom, "R1", key, cc.Pos(), "the exit defer releases the count only when the peer was unchoked, and is registered before every return", "peer.Run's exit decrement of numUnchoking is not under amUnchoking != 0, or its defer does not dominate every return")
 		})
@@ -222,29 +244,36 @@ func runC16(r *Report) {
 	_ = p
 	var pieceWrite *ssa.Call
 	var pieceLit *structLit
-	allInstrs(su, func(in ssa.Instruction) {
-		c, ok := in.(*ssa.Call)
-		if !ok || !isCallNamed(c, "peer", "write") {
-			return
+	var suUnit []*ssa.Function
+	for _, f := range p.SrcFuncs() {
+		// scheduleUpload or a private helper factored out of it (uploadHead)
+		if relPkg(f) == "peer" && f.Parent() == nil && (f == su || p.inUnitOf(f, su)) {
+			suUnit = append(suUnit, f)
 		}
-		if sl := litOf(c.Call.Args[1]); sl != nil && sl.Type == "protocol.Piece" {
-			pieceWrite, pieceLit = c, sl
-		}
-	})
+	}
+	for _, f := range suUnit {
+		allInstrs(f, func(in ssa.Instruction) {
+			c, ok := in.(*ssa.Call)
+			if !ok || !isCallNamed(c, "peer", "write") {
+				return
+			}
+			if sl := litOf(c.Call.Args[1]); sl != nil && sl.Type == "protocol.Piece" {
+				pieceWrite, pieceLit = c, sl
+				r.Fn(f)
+			}
+		})
+	}
 	if pieceWrite == nil {
 		r.Fail("R2", "scheduleUpload/write(Piece)", su.Pos(), "scheduleUpload no longer writes a Piece message the rule can identify")
 	} else {
-		under := false
-		for _, g := range guardsOf(pieceWrite.Block()) {
-			g = g.norm()
-			if m, pol := isAmLoadNonZero(g.Cond); m && pol == g.Pol {
-				under = true
-			}
-		}
+		under := p.guardedIP(pieceWrite, func(g Guard) bool {
+			m, pol := isAmLoadNonZero(g.Cond)
+			return m && pol == g.Pol
+		}, 0)
 		r.Check(under, "R2", "scheduleUpload/Piece-only-when-unchoking", pieceWrite.Pos(), "data is sent only under amUnchoking != 0", "a Piece is written on a path not dominated by amUnchoking != 0: data is sent to a choked peer")
 		// the served entry was removed before the write: a store requested = requested[1:] dominates it
 		popped := false
-		allInstrs(su, func(in ssa.Instruction) {
+		allInstrs(pieceWrite.Parent(), func(in ssa.Instruction) {
 			if st, ok := isStoreToField(in, req); ok && instrDominates(st, pieceWrite) {
 				if sl, ok := st.Val.(*ssa.Slice); ok && sl.Low != nil {
 					if k, okk := constInt(sl.Low); okk && k == 1 {
@@ -307,11 +336,17 @@ func runC16(r *Report) {
 	// choking clears the queue; cancel removes before reject
 	r.Fn(unchoke)
 	cleared := false
-	allInstrs(unchoke, func(in ssa.Instruction) {
-		if st, ok := isStoreToField(in, req); ok && isNilConst(st.Val) {
-			cleared = true
+	for _, f := range p.SrcFuncs() {
+		// unchoke or a private helper of it (choke)
+		if relPkg(f) != "peer" || !(f == unchoke || p.inUnitOf(f, unchoke)) {
+			continue
 		}
-	})
+		allInstrs(f, func(in ssa.Instruction) {
+			if st, ok := isStoreToField(in, req); ok && isNilConst(st.Val) {
+				cleared = true
+			}
+		})
+	}
 	r.Check(cleared, "R2", "unchoke/choke-clears-queue", unchoke.Pos(), "choking discards the queued requests", "choking no longer clears peer.requested: requests that were choked away are served after the next unchoke")
 	// ---------------- R4 (shared taint)
 	{
@@ -349,7 +384,11 @@ func runC16(r *Report) {
 	}
 	// ---------------- R5
 	n5 := 0
-	for _, ci := range callsIn(su) {
+	var suCalls []ssa.CallInstruction
+	for _, f := range suUnit {
+		suCalls = append(suCalls, callsIn(f)...)
+	}
+	for _, ci := range suCalls {
 		c, ok := ci.(*ssa.Call)
 		if !ok || !isCallNamed(c, "peer", "reject") {
 			continue
